@@ -17,19 +17,19 @@ def UpClosed (P : Rat → Bool) : Prop := ∀ s s', s ≤ s' → P s = true → 
 theorem below_upClosed (t : Thr) : UpClosed t.below := by
   intro s s' h hs
   cases t with
-  | pinf => simp [Thr.below] at hs
+  | pinf => simp [Thr.below, src_opGt_eq] at hs
   | ninf => rfl
   | fin q =>
-    simp only [Thr.below, decide_eq_true_eq] at hs ⊢
+    simp only [Thr.below, src_opGt_eq, decide_eq_true_eq] at hs ⊢
     linarith
 
 theorem not_above_upClosed (t : Thr) : UpClosed (fun s => !t.above s) := by
   intro s s' h hs
   cases t with
-  | pinf => simp [Thr.above] at hs
+  | pinf => simp [Thr.above, src_opLt_eq] at hs
   | ninf => rfl
   | fin q =>
-    simp only [Thr.above, Bool.not_eq_true', decide_eq_false_iff_not, not_lt] at hs ⊢
+    simp only [Thr.above, src_opLt_eq, Bool.not_eq_true', decide_eq_false_iff_not, not_lt] at hs ⊢
     linarith
 
 theorem sweepAux_complete (P : Rat → Bool) (hP : UpClosed P) (suf : List Row) :
@@ -47,9 +47,9 @@ theorem sweepAux_complete (P : Rat → Bool) (hP : UpClosed P) (suf : List Row) 
       intro x hx
       simp only [List.mem_singleton] at hx
       subst hx
-      simp [Thr.below, hPr]
+      simp [Thr.below, src_opGt_eq, hPr, src_thrSentinel]
     | cons r' rest' =>
-      simp only
+      simp only [src_midThreshold]
       have hs' : DescSorted (r' :: rest') := (List.pairwise_cons.mp hs).2
       have hrr' : r'.score ≤ r.score := (List.pairwise_cons.mp hs).1 r' (by simp)
       have hrest : ∀ x ∈ r' :: rest', x.score ≤ r'.score := by
@@ -85,13 +85,13 @@ theorem sweepAux_complete (P : Rat → Bool) (hP : UpClosed P) (suf : List Row) 
         · refine ⟨_, List.mem_cons_self, ?_⟩
           intro x hx
           rcases List.mem_cons.mp hx with rfl | hx
-          · simp only [Thr.below, hPr, decide_eq_true_eq]; linarith
+          · simp only [Thr.below, src_opGt_eq, hPr, decide_eq_true_eq]; linarith
           · have hx' := hrest x hx
             have hPx : P x.score = false := by
               by_contra hc
               have hc' : P x.score = true := by simpa using hc
               exact hPr' (hP _ _ hx' hc')
-            simp only [Thr.below, hPx, decide_eq_false_iff_not, not_lt]; linarith
+            simp only [Thr.below, src_opGt_eq, hPx, decide_eq_false_iff_not, not_lt]; linarith
 
 /-- every upward closed set of rows is the set above the threshold of some sweep step -/
 theorem sweepSteps_complete (P : Rat → Bool) (hP : UpClosed P) (rows : List Row) :
@@ -122,7 +122,7 @@ theorem sweepSteps_complete (P : Rat → Bool) (hP : UpClosed P) (rows : List Ro
         by_contra hc
         have hc' : P x.score = true := by simpa using hc
         exact hr (hP _ _ hle hc')
-      simp [Thr.below, this]
+      simp [Thr.below, src_opGt_eq, this]
 
 theorem confusion_congr {o o' : Op} {rows : List Row} (h : ∀ r ∈ rows, o.apply r.score = o'.apply r.score) :
     confusion o rows = confusion o' rows := by
